@@ -36,8 +36,10 @@ PartRows(p, ns, mult, prefix, wantRest) ==
 \* score level: divisions rescaled to the least common multiple, ids prefixed with the part number on request
 Digits(i) == IF i < 10 THEN "0" \o ToString(i) ELSE ToString(i)
 ScoreRows(parts, uniqueIds) ==
-   LET L == LcmSeq([i \in 1..Len(parts) |-> QAt(parts[i].cfg, 0)])
-   IN UNION {PartRows(parts[i].cfg, parts[i].notes, L \div QAt(parts[i].cfg, 0),
+   \* "their least common multiple": of the part arrays that are united - a part without a sounding note has no rows
+   \* and therefore no divisions in the union (it contributes 1)
+   LET L == LcmSeq([i \in 1..Len(parts) |-> IF Heads(parts[i].notes, 0) = {} THEN 1 ELSE QAt(parts[i].cfg, 0)])
+   IN UNION {PartRows(parts[i].cfg, parts[i].notes, IF Heads(parts[i].notes, 0) = {} THEN 1 ELSE L \div QAt(parts[i].cfg, 0),
                       IF uniqueIds = 1 /\ Len(parts) > 1 THEN "P" \o Digits(i - 1) \o "_" ELSE "", 0) : i \in 1..Len(parts)}
 (* ---- properties ---- *)
 OneRowPerSoundingNote(ns, rows) == Cardinality(rows) = Cardinality(Heads(ns, 0))
